@@ -182,6 +182,13 @@ func (c c18Case) build() (gwproc.Config, []string) {
 	}
 	if c.NHosts == 0 && c.EmptyHosts {
 		cfg.Set("Server", "Hosts", []string{})
+		if c.Via["hosts"] == "env" || c.Via["hosts"] == "both" {
+			// the host list is given by the environment, and it is empty (with "both" it blanks a list from the file)
+			env = append(env, "RDPGW_SERVER__HOSTS=")
+			if c.Via["hosts"] == "both" {
+				cfg.Set("Server", "Hosts", []string{"decoy.example:3389"})
+			}
+		}
 	}
 	if c.NHosts > 0 {
 		var hs []string
